@@ -3,6 +3,8 @@ CONSTANTS
   Producers = {1, 2}
   NPush = 2
   NOps = 2
+  Readers = {}
+  NReads = 0
   Variant = "nolock_push"
 INVARIANTS NoRace
 
